@@ -1,4 +1,5 @@
 import PEval.Lemmas.AnalyzerRates
+import PEval.Lemmas.AnalyzerSelect
 import PEval.Lemmas.AnalyzerErrors
 import PEval.Lemmas.AnalyzerAreas
 import PEval.Lemmas.AnalyzerPassFail
@@ -426,6 +427,118 @@ theorem confusion_none_iff (labels : List String) (t : Table) :
     getConfusionMatrix labels t = .ok none ↔ getPairResults t = [] :=
   PEval.Analyzer.confusion_none_iff labels t
 
+/-! ## selections: `get(**kwargs)` / `filter`, `filter_by_distance`, `analyze(**kwargs, distance=(d0, d1))`
+
+The property's statements about counts, rates, errors and the confusion matrix are made "for label / scene /
+area / distance selections": they are statements about the selected SUB-TABLE.  The theorems below say which
+sub-table that is (exactly the row pairs satisfying one pair predicate, in table order, pairs never split), what
+the predicate says, and that counts over it are the counts of the selected items of the pass/fail lists. -/
+
+/-- **selection_exact.** The table a selection yields is the full table filtered by the pair predicate
+`RowPair.selected` — nothing else is kept, nothing satisfying it is dropped, order, indices and both rows of every
+kept pair are preserved; an inverted or empty distance range is refused; and `analyze` reports nothing on an empty
+selection and otherwise computes rates, errors and the confusion matrix on exactly that sub-table. -/
+theorem selection_exact (labels : List String) (full : Table) (s : Sel) (d : Option (Rat × Rat)) :
+    ((∀ dd, d = some dd → dd.1 < dd.2) →
+      selectTable full s d = .ok (full.filter (RowPair.selected s d)) ∧
+      (∀ r, r ∈ full.filter (RowPair.selected s d) ↔ r ∈ full ∧ r.selected s d = true) ∧
+      (full.filter (RowPair.selected s d)).Sublist full ∧
+      (full.filter (RowPair.selected s d) = [] → analyze labels full s d = .ok none) ∧
+      (∀ A, analyze labels full s d = .ok (some A) →
+        A.ratio = summarizeRatio labels (full.filter (RowPair.selected s d)) ∧
+        A.error = summarizeError labels full (full.filter (RowPair.selected s d)) ∧
+        getConfusionMatrix labels (full.filter (RowPair.selected s d)) = .ok A.confusion)) ∧
+    (∀ dd, d = some dd → ¬ dd.1 < dd.2 →
+      selectTable full s d = .error "AssertionError" ∧ analyze labels full s d = .error "AssertionError") := by
+  constructor
+  · intro hd
+    have hsel := selectTable_ok full s d hd
+    refine ⟨hsel, fun r => by simp [List.mem_filter], List.filter_sublist, ?_, ?_⟩
+    · intro he
+      rw [analyze_eq_selectTable, hsel]
+      simp [he]
+    · intro A hA
+      rw [analyze_eq_selectTable, hsel] at hA
+      simp only at hA
+      split at hA
+      · simp at hA
+      · cases hc : getConfusionMatrix labels (full.filter (RowPair.selected s d)) with
+        | error e => simp [hc] at hA
+        | ok cm =>
+          simp only [hc, Except.ok.injEq, Option.some.injEq] at hA
+          subst hA
+          exact ⟨rfl, rfl, rfl⟩
+  · intro dd hdd hn
+    subst hdd
+    have := selectTable_err full s dd hn
+    exact ⟨this, by rw [analyze_eq_selectTable, this]⟩
+
+/-- **selection_predicate.** A pair is selected iff EVERY given keyword (label, scene, frame, area, status, uuid —
+a scalar is a singleton list) is matched by SOME row of the pair — ground-truth row or estimate row, possibly
+different rows for different keywords — and, if a distance range is given, SOME row of the pair lies in it;
+"lies in `(d0, d1)`" is `d0 ≤ ρ < d1` for the ego-frame distance `ρ = √(x² + y²)` of the row (lower bound
+inclusive, upper bound exclusive). -/
+theorem selection_predicate (s : Sel) (d : Option (Rat × Rat)) (r : RowPair) :
+    (r.selected s d = true ↔
+      ((∀ l, s.labels = some l → ∃ c, r.HasRow c ∧ c.obj.label ∈ l) ∧
+       (∀ l, s.scenes = some l → ∃ c, r.HasRow c ∧ c.scene ∈ l) ∧
+       (∀ l, s.frames = some l → ∃ c, r.HasRow c ∧ c.frame ∈ l) ∧
+       (∀ l, s.areas = some l → ∃ c, r.HasRow c ∧ ∃ a, c.area = some a ∧ a ∈ l) ∧
+       (∀ l, s.statuses = some l → ∃ c, r.HasRow c ∧ c.status ∈ l) ∧
+       (∀ l, s.uuids = some l → ∃ c, r.HasRow c ∧ c.obj.uuid ∈ l)) ∧
+      ∀ dd, d = some dd → ∃ c, r.HasRow c ∧ inDistance dd c = true) ∧
+    (∀ (dd : Rat × Rat) (c : Cell) (ρ : Rat), 0 ≤ ρ → ρ * ρ = c.obj.x * c.obj.x + c.obj.y * c.obj.y →
+      (inDistance dd c = true ↔ dd.1 ≤ ρ ∧ ρ < dd.2)) :=
+  ⟨by rw [selected_iff, keep_iff], fun dd c ρ h0 hρ => inDistance_iff dd c ρ h0 hρ⟩
+
+/-- **selection_counts.** Counts over a selection are the counts of the selected items: for the table of any
+scenes and any valid selection, the TP / FP / TN / FN counts, the estimate count and the number of paired rows of
+the selected sub-table are the numbers of TP results, FP results, TN objects, FN objects (resp. TP+FP results,
+resp. TP / FP results carrying a ground truth) of the frames' pass/fail lists whose row pair satisfies the
+selection predicate (`tpSel` … `pairedSel`, summed over scenes `0, 1, …` and their frames). -/
+theorem selection_counts (s : Sel) (d : Option (Rat × Rat)) (hd : ∀ dd, d = some dd → dd.1 < dd.2) :
+    ∃ df, selectTable (addAll area scenes).table s d = .ok df ∧
+      getNumTP df = sumScenesFrom (tpSel area (Item.selected s d)) 0 scenes ∧
+      getNumFP df = sumScenesFrom (fpSel area (Item.selected s d)) 0 scenes ∧
+      getNumTN df = sumScenesFrom (tnSel area (Item.selected s d)) 0 scenes ∧
+      getNumFN df = sumScenesFrom (fnSel area (Item.selected s d)) 0 scenes ∧
+      getNumEstimation df =
+        sumScenesFrom (fun k f => tpSel area (Item.selected s d) k f + fpSel area (Item.selected s d) k f) 0 scenes ∧
+      (getPairResults df).length = sumScenesFrom (pairedSel area (Item.selected s d)) 0 scenes := by
+  refine ⟨_, selectTable_ok _ s d hd, ?_⟩
+  have e : (addAll area scenes).table.filter (RowPair.selected s d) =
+      (addAll area scenes).table.filter (fun r => Item.selected s d r.strip) := rfl
+  rw [e]
+  exact ⟨selection_numTP area scenes _, selection_numFP area scenes _, selection_numTN area scenes _,
+    selection_numFN area scenes _, selection_numEstimation area scenes _, selection_paired area scenes _⟩
+
+/-- **selection_confusion_sum.** On every selection the confusion matrix `analyze` reports sums to the number of
+selected TP / FP results that carry a ground truth. -/
+theorem selection_confusion_sum (labels : List String) (s : Sel) (d : Option (Rat × Rat)) (A : Analysis)
+    (m : List (List Nat)) (h : analyze labels (addAll area scenes).table s d = .ok (some A))
+    (hm : A.confusion = some m) :
+    sumN (m.map sumN) = sumScenesFrom (pairedSel area (Item.selected s d)) 0 scenes := by
+  have hd : ∀ dd, d = some dd → dd.1 < dd.2 := by
+    intro dd hdd
+    by_contra hn
+    have := ((selection_exact labels (addAll area scenes).table s d).2 dd hdd hn).2
+    rw [this] at h
+    cases h
+  obtain ⟨_, _, _, _, hA⟩ := (selection_exact labels (addAll area scenes).table s d).1 hd
+  obtain ⟨_, _, hcm⟩ := hA A h
+  rw [hm] at hcm
+  obtain ⟨df, hdf, _, _, _, _, _, hp⟩ := selection_counts area scenes s d hd
+  rw [selectTable_ok _ s d hd] at hdf
+  cases hdf
+  rw [(confusion_sum labels _ m hcm).1, hp]
+
+/-- the whole-table counts are the selection counts of the empty selection -/
+theorem selection_counts_whole :
+    sumScenesFrom (tpSel area (fun _ => true)) 0 scenes = sumN (scenes.flatten.map fun f => f.tp.length) := by
+  have : tpSel area (fun _ => true) = fun _ f => f.tp.length := by
+    funext k f; simp [tpSel]
+  rw [this, sumScenesFrom_const]
+
 /-! ## areas -/
 
 /-- **area_idx_unique.** For the 1/3/9 divisions of any `max_x`, `max_y`, at most one area contains a
@@ -496,6 +609,28 @@ def n1Frame : Frame :=
 theorem example_n1 :
     (ratioOf (addAll (fun _ _ => none) [[n1Frame]]).table { labels := some ["unknown"] }).tp = 2 ∧
     (ratioOf (addAll (fun _ _ => none) [[n1Frame]]).table {}).tp = 2 / 3 := by
+  decide +kernel
+
+/-- a pair that STRADDLES a distance range (ground truth at 14 m, estimate at 17 m, range [15, 16)): one row is at
+or above the lower bound, the other below the upper bound, but neither lies in the range — not selected; with the
+range [15, 18) the estimate lies inside and the pair is kept as a whole (both rows); a bound equal to a row's
+distance: lower bound inclusive, upper bound exclusive; a label carried by one row only selects the pair -/
+def straddleFrame : Frame :=
+  { frameNum := 0, tp := [⟨unk "e1" 17, some (car "g1" 14)⟩], fp := [⟨car "e2" 40, none⟩], tn := [], fn := [car "g3" 15]
+    critical := [car "g1" 14, car "g3" 15] }
+
+theorem example_straddle :
+    let T := (addAll (fun _ _ => none) [[straddleFrame]]).table
+    (selectTable T {} (some (15, 16))).map (·.map (·.index)) = .ok [2] ∧
+    (selectTable T {} (some (15, 18))).map (·.map (·.index)) = .ok [0, 2] ∧
+    (selectTable T {} (some (14, 15))).map (·.map (·.index)) = .ok [0] ∧
+    (selectTable T {} (some (17, 40))).map (·.map (·.index)) = .ok [0] ∧
+    (selectTable T {} (some (17, 41))).map (·.map (·.index)) = .ok [0, 1] ∧
+    (selectTable T {} (some (20, 30))).map (·.map (·.index)) = .ok [] ∧
+    (selectTable T {} (some (16, 16))).map (·.map (·.index)) = .error "AssertionError" ∧
+    (selectTable T { labels := some ["unknown"] } none).map (·.map (·.index)) = .ok [0] ∧
+    (selectTable T { labels := some ["car"], statuses := some [.TP, .FN] } (some (15, 18))).map (·.map (·.index)) = .ok [0, 2] ∧
+    (selectTable T { labels := some ["car"] } (some (15, 18))).map (fun df => (getNumTP df, getNumFN df, (getPairResults df).length)) = .ok (1, 1, 1) := by
   decide +kernel
 
 /-- errors and summaries on a concrete pair list -/
